@@ -210,13 +210,23 @@ class Interp:
     def emit(self, st, kind, label, goal, expect="unsat"):
         if st.pure:
             return
-        if z3.is_true(goal):
-            # trivially true goals are still counted (discharged syntactically)
-            pass
-        base = "%s/%s:%s" % (self.ob_prefix, kind, label)
-        n = self.ob_count.get(base, 0)
-        self.ob_count[base] = n + 1
-        self.obligations.append(Obligation("%s#%d" % (base, n), kind, st.pc, goal, st.trail, expect))
+        # conjunctive goals are split into one obligation per conjunct (smaller queries, precise names)
+        parts = []
+
+        def flat(g):
+            if z3.is_and(g):
+                for ch in g.children():
+                    flat(ch)
+            else:
+                parts.append(g)
+        flat(goal)
+        if not parts:
+            parts = [goal]
+        for j, g in enumerate(parts):
+            base = "%s/%s:%s%s" % (self.ob_prefix, kind, label, "" if len(parts) == 1 else ".%d" % j)
+            n = self.ob_count.get(base, 0)
+            self.ob_count[base] = n + 1
+            self.obligations.append(Obligation("%s#%d" % (base, n), kind, st.pc, g, st.trail, expect))
 
     def feasible(self, st, extra=None):
         """cheap pruning: False only when z3 proves the path condition unsatisfiable"""
@@ -708,6 +718,8 @@ class Interp:
             k = svs[0].kind
             for x in svs[1:]:
                 k = self.join_kinds(k, x.kind)
+        if k.tag == "opt":
+            k = k.args[0]      # a set display over an Optional value: the element is used unwrapped
         tree = default_tree(SET(k))
         lits = []
         for x in svs:
@@ -1131,6 +1143,8 @@ class Interp:
             return a.tree == b.tree
         if isinstance(a, bool) or isinstance(b, bool):
             return self.py_eq(a, b)
+        if is_container(a) or is_container(b):
+            return z3.BoolVal(False)     # containers are values here; identity of two container arguments is not tracked
         if isinstance(a, SV) and isinstance(b, SV) and a.kind.tag == "opt" and b.kind.tag == "obj":
             return z3.And(z3.Not(a.tree[0]), a.tree[1] == b.tree)
         raise Unsupported("`is` on %r / %r" % (a, b))
